@@ -1257,6 +1257,8 @@ package http2
 //@ opt noframe=true
 //@ # what is queued is a WINDOW_UPDATE frame for that stream (0: the connection) with exactly that increment
 //@ assert@call:(*Conn).writeOut#1 frame: arg1 != nil && arg1.stream == streamID && typeis(arg1.fr, *WindowUpdate) && as(arg1.fr, *WindowUpdate).increment == size
+//@ # ... always: credit is handed back for as long as DATA arrives, also while the connection is winding down after a GOAWAY
+//@ ensures sent: called((*Conn).writeOut) == 1
 
 //@ func (*Conn).readStream
 //@ props C14 C02 C16 C17
@@ -1298,7 +1300,7 @@ package http2
 //@ # :status is a three-digit number and comes before any regular field
 //@ # (a repeated :status in the same block is rejected: statusSeen is set on the way to the first one only)
 //@ ghost nstatus = 0
-//@ assert@call:(*Response).SetStatusCode#1 status: !regularSeen && n >= 100 && n <= 999 && nstatus == 0
+//@ assert@call:(*Response).SetStatusCode#1 status: !regularSeen && n >= 100 && n <= 999 && nstatus == 0 && hf.key == ":status"
 //@ ghost@call:(*Response).SetStatusCode#1 nstatus = nstatus + 1
 //@ loop 0: invariant once: nstatus >= 0 && nstatus <= 1 && (statusSeen <==> nstatus == 1)
 //@ # regular fields: lower-case names, nothing connection-specific, numeric content-length
@@ -1608,6 +1610,7 @@ package http2
 //@ route disp C10
 //@ route rstidle C08 C09
 //@ route ends C10
+//@ route rstclosed C09 C13
 //@ route notclosing C10
 //@ route delta C06
 //@ route rest C06
@@ -1635,6 +1638,10 @@ package http2
 //@ # once the connection is closing no stream is opened any more
 //@ assert@call:NewStream#1 notclosing: sc.state != 1
 //@ # a connection error that leaves nothing to wait for (GOAWAY without a stream to finish) ends the loop there and then
+//@ # a request refused for its content-length is reset and its stream closed in the same iteration: it does not keep its slot
+//@ ghost rstopen = false
+//@ ghost@call:(*serverConn).writeReset#4 rstopen = true
+//@ ghost@call:closeStream#4 rstopen = false
 //@ ghost noref = false
 //@ ghost@call:(*serverConn).writeGoAway#1 noref = true
 //@ ghost@call:(*serverConn).writeGoAway#2 noref = true
@@ -1665,6 +1672,7 @@ package http2
 //@ loop 0: invariant ids: tblIds(strms, sc.lastID)
 //@ loop 0: invariant disp: maxd <= sc.lastID
 //@ loop 0: invariant ends: !noref
+//@ loop 0: invariant rstclosed: !rstopen
 //@ # ---- C09: a header block is skipped only when the connection is going down; on a connection that stays up
 //@ # (e.g. a stream refused for MaxConcurrentStreams) skipping it leaves the HPACK decoder out of step with the peer ----
 //@ loop 0: invariant hpacksync: handled == nil || !(handled.kind == FrameHeaders || handled.kind == FrameContinuation) || fed || sc.state == 1
